@@ -10,13 +10,13 @@ fn lk(s: &str) -> &'static str { Box::leak(s.to_string().into_boxed_str()) }
 fn lkv<T>(t: T) -> &'static T { Box::leak(Box::new(t)) }
 fn wit(s: String) { println!("WITNESS {}", s.replace('\n', " ")); }
 fn msgs() -> Vec<String> {
-    let mut v: Vec<String> = vec!["".into(), "a".into(), "{}".into(), "{\"a\":1}".into(), "Zo\u{eb} \u{2713} \u{1F511}".into(), "a.b\0c".into()];
+    let mut v: Vec<String> = vec!["".into(), "a".into(), "{}".into(), "{\"a\":1}".into(), "Zo\u{eb} \u{2713} \u{1F511}".into(), "a.b\0c".into(), "\u{feff}".into(), "\u{feff}{\"a\":1}".into(), " a ".into(), "\n".into()];
     for n in [15usize, 16, 17, 24, 40, 63, 64, 65, 127, 128, 129, 200, 255, 256, 300, 1000] { v.push("x".repeat(n)); }
     v
 }
 fn footers() -> Vec<Option<String>> {
     vec![None, Some("".into()), Some("f".into()), Some("ok?".into()), Some("id~".into()), Some(" ".into()), Some("\n".into()), Some("\u{1F511}".into()),
-         Some("{\"kid\":\"k1\"}".into()), Some("F".repeat(130)), Some("g".repeat(256)), Some("ab".into()), Some("abc".into()), Some("abcd".into())]
+         Some("{\"kid\":\"k1\"}".into()), Some("F".repeat(130)), Some("g".repeat(256)), Some("ab".into()), Some("abc".into()), Some("abcd".into()), Some("L".repeat(9000))]
 }
 fn fstr(f: &Option<String>) -> &str { f.as_deref().unwrap_or("") }
 fn key32(b: u8) -> Key<32> { let mut k = [b; 32]; k[0] = 7; Key::<32>::from(k) }
@@ -80,6 +80,11 @@ fn c01() {
             }
         }
     }}}}
+    // large messages (no size limit on either side)
+    for v in 1..=4u8 { let m = "y".repeat(70_000); match local::enc(v, 1, 2, &m, &None, &None, false) { Ok(t) => match local::dec(v, 1, &t, &None, &None) { Ok(p) if p == m => {}, o => return wit(format!("C01 v{v}.local round trip of a 70000-byte message fails: {:?}", o.map(|p| p.len()).map_err(|e| format!("{e:?}")))) }, Err(e) => return wit(format!("C01 v{v}.local try_encrypt of a 70000-byte message failed: {e}")) } }
+    { let key = lkv(PasetoSymmetricKey::<V4, Local>::from(key32(3))); let big = "z".repeat(66_000);
+      let mut pb = PasetoBuilder::<V4, Local>::default(); pb.set_claim(CustomClaim::try_from(("blob", big.as_str())).unwrap());
+      match pb.build(&key) { Ok(t) => { let r = PasetoParser::<V4, Local>::default().parse(lk(&t), key); if r.as_ref().map(|j| j["blob"] != big.as_str()).unwrap_or(true) { return wit(format!("C01 PasetoBuilder/PasetoParser<V4,Local> with a 66000-byte claim does not round-trip: {:?}", r.map(|_| "Ok(other)").map_err(|e| e.to_string()))); } } Err(e) => return wit(format!("C01 PasetoBuilder<V4,Local>::build with a 66000-byte claim failed: {e}")) } }
     layers_roundtrip();
 }
 #[cfg(feature = "main_set")]
@@ -154,6 +159,11 @@ fn tampered(t: &str) -> Vec<(String, String)> {
     }
     out.push(("one char appended to payload text".into(), { let mut s = format!("{hdr}{}A", parts[2]); if parts.len() == 4 { s.push('.'); s.push_str(parts[3]); } s }));
     out.push(("payload text with '=' padding".into(), { let mut s = format!("{hdr}{}=", parts[2]); if parts.len() == 4 { s.push('.'); s.push_str(parts[3]); } s }));
+    out.push(("payload text with '==' padding".into(), { let mut s = format!("{hdr}{}==", parts[2]); if parts.len() == 4 { s.push('.'); s.push_str(parts[3]); } s }));
+    if let Some(d) = R::unb64(parts[2]) { let n = d.len();
+        for (a, b) in [(1usize, 2usize), (1, 17), (1, 32), (5, 9)] { if n > b { for mask in [0x01u8, 0x80, 0xff] { let mut e = d.clone(); e[n - a] ^= mask; e[n - b] ^= mask;
+            let mut s = format!("{hdr}{}", R::b64(&e)); if parts.len() == 4 { s.push('.'); s.push_str(parts[3]); }
+            out.push((format!("decoded bytes {}/{n} and {}/{n} both XORed with {mask:#04x}", n - a, n - b), s)); } } } }
     out
 }
 #[cfg(feature = "main_set")]
@@ -169,12 +179,22 @@ fn c03() {
             }
         }
     }}}
+    // the parser layers must not normalise the token text either
+    { let key = lkv(PasetoSymmetricKey::<V4, Local>::from(key32(1))); let mut pb = PasetoBuilder::<V4, Local>::default();
+      if let Ok(t) = pb.build(&key) { for (what, t2) in [("leading space", format!(" {t}")), ("trailing newline", format!("{t}\n")), ("trailing space", format!("{t} ")), ("leading tab", format!("\t{t}")), ("CRLF around", format!("\r\n{t}\r\n")), ("trailing NUL", format!("{t}\0"))] {
+          if PasetoParser::<V4, Local>::default().parse(lk(&t2), key).is_ok() { return wit(format!("C03 PasetoParser<V4,Local> accepts an extended token ({what}): {t2:?}")); }
+          if GenericParser::<V4, Local>::default().parse(lk(&t2), key).is_ok() { return wit(format!("C03 GenericParser<V4,Local> accepts an extended token ({what}): {t2:?}")); } } }
+      let (kp, pk) = R::ed_keypair(9); let k64 = lkv(Key::<64>::from(kp)); let k32 = lkv(Key::<32>::from(pk));
+      let mut pb = PasetoBuilder::<V4, Public>::default();
+      if let Ok(t) = pb.build(&PasetoAsymmetricPrivateKey::<V4, Public>::from(k64)) { let pkk = lkv(PasetoAsymmetricPublicKey::<V4, Public>::from(k32));
+        for (what, t2) in [("leading space", format!(" {t}")), ("trailing newline", format!("{t}\n")), ("trailing space", format!("{t} "))] {
+          if PasetoParser::<V4, Public>::default().parse(lk(&t2), pkk).is_ok() { return wit(format!("C03 PasetoParser<V4,Public> accepts an extended token ({what}): {t2:?}")); } } } }
     public_tamper();
 }
 #[cfg(feature = "main_set")]
 fn public_tamper() {
     let (kp, pk) = R::ed_keypair(9);
-    for m in ["", "{\"a\":1}", &"x".repeat(64)] { for f in [None, Some("ft")] {
+    for m in ["", "{\"a\":1}", &"x".repeat(64)] { for f in [None, Some("ft"), Some(" "), Some("\n")] {
         let k64 = lkv(Key::<64>::from(kp)); let k32 = lkv(Key::<32>::from(pk));
         let sk = PasetoAsymmetricPrivateKey::<V4, Public>::from(k64); let pkk = lkv(PasetoAsymmetricPublicKey::<V4, Public>::from(k32));
         let mut b = Paseto::<V4, Public>::builder(); b.set_payload(Payload::from(m)); if let Some(f) = f { b.set_footer(Footer::from(f)); }
@@ -204,6 +224,16 @@ fn c04() {
       if let Ok(t) = b.try_encrypt(key) { let t = lk(&t);
         let mut p = GenericParser::<V4, Local>::default(); let first = p.parse(t, key).is_ok(); if p.parse(t, other).is_ok() { return wit(format!("C04 one GenericParser<V4,Local>: parse(token, K) = {first}, then parse(same token, K') is accepted")); }
         let mut pp = PasetoParser::<V4, Local>::default(); let mut bb = PasetoBuilder::<V4, Local>::default(); if let Ok(t2) = bb.build(key) { let t2 = lk(&t2); let first = pp.parse(t2, key).is_ok(); if pp.parse(t2, other).is_ok() { return wit(format!("C04 one PasetoParser<V4,Local>: parse(token, K) = {first}, then parse(same token, K') is accepted")); } } } }
+    { let repo = std::env::args().nth(2).unwrap_or("/repo".into());
+      let (skf, pkf) = (std::fs::read(format!("{repo}/tests/v1_public_test_vectors_private_key.pk8")).or_else(|_| std::fs::read("/repo/tests/v1_public_test_vectors_private_key.pk8")), std::fs::read(format!("{repo}/tests/v1_public_test_vectors_public_key.der")).or_else(|_| std::fs::read("/repo/tests/v1_public_test_vectors_public_key.der")));
+      if let (Ok(sk), Ok(pk)) = (skf, pkf) {
+        let mut b = Paseto::<V1, Public>::builder(); b.set_payload(Payload::from("{\"a\":1}"));
+        if let Ok(t) = b.try_sign(&PasetoAsymmetricPrivateKey::<V1, Public>::from(&sk[..])) {
+            let mut other = pk.clone(); let mid = other.len() / 2; other[mid] ^= 0x55;
+            for (what, kb) in [("300 bytes of 0x01", vec![1u8; 300]), ("the signer's key with one modulus byte changed", other), ("an empty key", vec![])] {
+                if Paseto::<V1, Public>::try_verify(&t, &PasetoAsymmetricPublicKey::<V1, Public>::from(&kb[..]), None).is_ok() { return wit(format!("C04 v1.public token verifies under a key that is not the signer's ({what})")); } } } } }
+    // many wrong keys on short messages (a comparison that only checks part of the tag lets some through)
+    for v in [1u8, 3, 4] { for m in ["", "a"] { if let Ok(t) = local::enc(v, 1, 2, m, &None, &None, false) { for kb in 8u8..=255 { if let Ok(p) = local::dec(v, kb, &t, &None, &None) { return wit(format!("C04 v{v}.local token of message {m:?} built under key [7,1,1,..] decrypts under key [7,{kb},{kb},..] -> {p:?}")); } } } } }
     let (kp, _pk) = R::ed_keypair(9); let (_kp2, pk2) = R::ed_keypair(10);
     let k64 = lkv(Key::<64>::from(kp)); let k32 = lkv(Key::<32>::from(pk2));
     let mut b = Paseto::<V4, Public>::builder(); b.set_payload(Payload::from("{}"));
@@ -225,6 +255,9 @@ fn c05() {
 #[cfg(feature = "main_set")]
 fn c06() {
     let ias = [None, Some("".to_string()), Some("a".to_string()), Some("ab".to_string()), Some("a ".to_string()), Some(" a".to_string()), Some("a\n".to_string()), Some(" ".to_string()), Some("tenant-id:1001".repeat(10)), Some(format!("{}2", &"tenant-id:1001".repeat(10)[..139])), Some("{\"x\":1}".to_string()), Some("z".repeat(200))];
+    for v in 3..=4u8 { for i in ias.iter().take(6) { for i2 in ias.iter().take(6) { let t = match local::enc(v, 1, 2, "", &None, i, false) { Ok(t) => t, Err(_) => continue };
+        let same = i.as_deref().unwrap_or("") == i2.as_deref().unwrap_or(""); let r = local::dec(v, 1, &t, &None, i2);
+        if r.is_ok() != same { return wit(format!("C06 v{v}.local token of the EMPTY message built with assertion {:?} presented with {:?} -> {:?}", i, i2, r.map_err(|e| format!("{e:?}")))); } } } }
     for v in 3..=4u8 { for i in &ias { for i2 in &ias { for f in [None, Some("ft".to_string())] {
         let t = match local::enc(v, 1, 2, "{\"a\":1}", &f, i, false) { Ok(t) => t, Err(_) => continue };
         let same = i.as_deref().unwrap_or("") == i2.as_deref().unwrap_or("");
@@ -237,6 +270,7 @@ fn c06() {
     // (footer, assertion) boundary shift
     for v in 3..=4u8 { let t = local::enc(v, 1, 2, "{}", &Some("ab".into()), &Some("cd".into()), false).unwrap_or_default();
         if local::dec(v, 1, &t, &Some("abc".into()), &Some("d".into())).is_ok() { return wit(format!("C06 v{v}.local boundary shift between footer and assertion accepted")); } }
+    layers_roundtrip();
     // second build from the same core builder keeps the assertion
     for v in 3..=4u8 { if let Ok(t) = local::enc(v, 1, 2, "{}", &None, &Some("ia".into()), true) { if local::dec(v, 1, &t, &None, &Some("ia".into())).is_err() { return wit(format!("C06 v{v}.local: second try_encrypt from one builder lost the implicit assertion (token {t})")); } } }
 }
@@ -251,7 +285,16 @@ fn c07() {
             if let Ok(p) = local::dec(y, 1, &tt, &None, &None) { return wit(format!("C07 v{x}.local token (message len {}) presented {how} to v{y}.local is accepted -> {p:?}: {tt}", m.len())); }
         }
     }}}
+    // a token whose header names another protocol must be rejected even when everything else is authentic for the callee
+    for y in 1..=4u8 { for f in [None, Some("ft".to_string())] { if let Ok(t) = local::enc(y, 1, 2, "{\"a\":1}", &f, &None, false) {
+        for other in ["v1.local.", "v2.local.", "v3.local.", "v4.local.", "v1.public.", "v2.public.", "v3.public.", "v4.public.", "v4.loca1.", "v5.local."] {
+            let own = format!("v{y}.local."); if other == own { continue; }
+            let tt = t.replacen(&own, other, 1);
+            if let Ok(p) = local::dec(y, 1, &tt, &f, &None) { return wit(format!("C07 authentic v{y}.local token (footer {f:?}) relabelled {other:?} is accepted by v{y}.local -> {p:?}: {tt}")); } } } } }
     let (kp, pk) = R::ed_keypair(9); let k64 = lkv(Key::<64>::from(kp)); let k32 = lkv(Key::<32>::from(pk));
+    for f in [None, Some("ft")] { let mut b = Paseto::<V4, Public>::builder(); b.set_payload(Payload::from("{}")); if let Some(f) = f { b.set_footer(Footer::from(f)); }
+        if let Ok(t) = b.try_sign(&PasetoAsymmetricPrivateKey::<V4, Public>::from(k64)) { for other in ["v2.public.", "v4.local.", "v1.public.", "v3.public."] { let tt = t.replacen("v4.public.", other, 1);
+            if Paseto::<V4, Public>::try_verify(&tt, &PasetoAsymmetricPublicKey::<V4, Public>::from(k32), f.map(Footer::from), None).is_ok() { return wit(format!("C07 authentic v4.public token (footer {f:?}) relabelled {other:?} is accepted by v4.public: {tt}")); } } } }
     for m in ["", "{\"a\":1}", &"x".repeat(24)] {
         let mut b = Paseto::<V2, Public>::builder(); b.set_payload(Payload::from(m));
         if let Ok(t2) = b.try_sign(&PasetoAsymmetricPrivateKey::<V2, Public>::from(k64)) {
@@ -321,6 +364,13 @@ fn c09() {
         chk!("PasetoParser::<V4,Public>::parse", PasetoParser::<V4, Public>::default().parse(lk(s), lkv(PasetoAsymmetricPublicKey::<V4, Public>::from(k32))));
         chk!("PasetoParser::<V2,Public>::parse", PasetoParser::<V2, Public>::default().parse(lk(s), lkv(PasetoAsymmetricPublicKey::<V2, Public>::from(k32))));
     }
+    for claim in ["exp", "nbf", "iat"] { for val in ["9999-12-31T23:59:59Z", "9999-12-31T23:59:59.999999999Z", "9999-12-31T23:59:59-23:59", "9999-12-31T23:59:59+23:59", "0000-01-01T00:00:00Z", "0000-01-01T00:00:00+23:59", "0001-01-01T00:00:00-23:59", "1970-01-01T00:00:00Z", "2038-01-19T03:14:08Z"] {
+        let (t, key) = v4tok(&format!("{{\"{claim}\":\"{val}\"}}"));
+        if !no_panic(AssertUnwindSafe(|| { let _ = PasetoParser::<V4, Local>::default().parse(lk(&t), key); })) { return wit(format!("C09 PasetoParser::<V4,Local>::parse panics on an authentic token whose {claim} is {val:?}")); }
+        if !no_panic(AssertUnwindSafe(|| { let _ = GenericParser::<V4, Local>::default().parse(lk(&t), key); })) { return wit(format!("C09 GenericParser::<V4,Local>::parse panics on an authentic token whose {claim} is {val:?}")); } } }
+    // expected footer longer / shorter than the presented segment, multi-byte text in the footer segment
+    for fseg in ["", "A", "Zm9", "Zm9v", "Zm9vYmFy", "\u{20ac}", "Z\u{20ac}", "Zm\u{e9}v", "=", "===="] { for exp_f in ["foo", "f", "foobarbaz", "\u{20ac}"] { let s = format!("v4.local.{}.{fseg}", R::b64(&[0u8; 70]));
+        if !no_panic(AssertUnwindSafe(|| { let _ = Paseto::<V4, Local>::try_decrypt(&s, &PasetoSymmetricKey::<V4, Local>::from(key32(1)), Some(Footer::from(exp_f)), None); let mut p = PasetoParser::<V4, Local>::default(); p.set_footer(Footer::from(exp_f)); let _ = p.parse(lk(&s), lkv(PasetoSymmetricKey::<V4, Local>::from(key32(1)))); })) { return wit(format!("C09 try_decrypt/parse panics on token {s:?} with expected footer {exp_f:?}")); } } }
     for n in 0..=200usize { for c in ["0", "a", "g", "\u{e9}"] { let s = c.repeat(n);
         if !no_panic(|| { let _ = Key::<32>::try_from(s.as_str()); }) { return wit(format!("C09 Key::<32>::try_from panics on a {n}-character string of {c:?}")); }
         if !no_panic(|| { let _ = Key::<64>::try_from(s.as_str()); }) { return wit(format!("C09 Key::<64>::try_from panics on a {n}-character string of {c:?}")); }
@@ -364,7 +414,7 @@ fn c11_c12(which: &str) {
     let fut = [time::Duration::seconds(60), time::Duration::hours(1), time::Duration::hours(7), time::Duration::days(400), time::Duration::days(365 * 1000)];
     let mut cases: Vec<(String, bool)> = vec![]; // (json value text, must_accept) for exp; reversed for nbf
     for o in offs { for fr in [false, true] { for d in past { cases.push((format!("\"{}\"", fmt(now - d, o, fr)), false)); } for d in fut { cases.push((format!("\"{}\"", fmt(now + d, o, fr)), true)); } } }
-    let bad = ["12345", "true", "false", "[1]", "{\"a\":1}", "\"\"", "\" \"", "\"garbage\"", "\"2019-01-01\"", "0", "1.5", "[]", "{}"];
+    let bad = ["12345", "true", "false", "[1]", "{\"a\":1}", "\"\"", "\" \"", "\"garbage\"", "\"2019-01-01\"", "0", "1.5", "[]", "{}", "4102444800", "99999999999", "1e12", "-1", "\"4102444800\""];
     for (claim, flip) in [("exp", false), ("nbf", true)] {
         if (which == "C11") == flip { continue; }
         for (val, acc) in &cases { let must_accept = *acc != flip;
@@ -373,6 +423,12 @@ fn c11_c12(which: &str) {
                 if r != must_accept { return wit(format!("{which} default PasetoParser<{}> on payload {{\"{claim}\":{val}}} (now = {}) -> {} but must {}", if layer == 0 { "V4,Local" } else { "V3,Local" }, now.format(&Rfc3339).unwrap(), if r { "accept" } else { "reject" }, if must_accept { "accept" } else { "reject" })); } }
         }
         for b in bad { let (t, key) = v4tok(&format!("{{\"{claim}\":{b}}}")); if PasetoParser::<V4, Local>::default().parse(lk(&t), key).is_ok() { return wit(format!("{which} default PasetoParser accepts a token whose {claim} is present but not an RFC 3339 timestamp: {{\"{claim}\":{b}}}")); } }
+        // one parser, one token, parsed before and after the instant passes: the verdict must follow the clock
+        { let soon = fmt(now + time::Duration::milliseconds(2500), (0, 0), true); let (t, key) = v4tok(&format!("{{\"{claim}\":\"{soon}\"}}"));
+          let mut p = PasetoParser::<V4, Local>::default(); let first = p.parse(lk(&t), key).is_ok();
+          let wait = (now + time::Duration::milliseconds(3200)) - time::OffsetDateTime::now_utc(); if wait.is_positive() { std::thread::sleep(std::time::Duration::from_millis(wait.whole_milliseconds() as u64)); }
+          let second = p.parse(lk(&t), key).is_ok(); let want = if claim == "exp" { (true, false) } else { (false, true) };
+          if (first, second) != want { return wit(format!("{which} one PasetoParser<V4,Local>, token with {claim} = now+2.5s parsed before and after that instant: accepted = ({first},{second}) but must be {want:?}")); } }
         for ok in ["{}", "{\"x\":1}", &format!("{{\"{claim}\":null}}")] { let (t, key) = v4tok(ok); if let Err(e) = PasetoParser::<V4, Local>::default().parse(lk(&t), key) { return wit(format!("{which} default PasetoParser rejects a token without {claim}: {ok} -> {e}")); } }
     }
 }
@@ -414,8 +470,9 @@ fn c13() {
 fn c14() {
     use serde_json::json;
     let key = lkv(PasetoSymmetricKey::<V4, Local>::from(key32(1)));
-    let vals = vec![json!("s"), json!("Zo\u{eb} M\u{fc}ller \u{1F511}"), json!(5), json!(-7), json!(1.5), json!(true), json!(null), json!([1, "a", null]), json!({"k": "v"}), json!({"n": {"n": 1}}), json!({"a": {"b": [1, {"c": null}]}}), json!({}), json!([]), json!(""), json!({"x": 1, "y": 2})];
-    let keys = ["a", "n", "k", "scope", "\u{e9}\u{1F511}", "x"];
+    let vals = vec![json!("s"), json!("Zo\u{eb} M\u{fc}ller \u{1F511}"), json!(5), json!(-7), json!(1.5), json!(true), json!(null), json!([1, "a", null]), json!({"k": "v"}), json!({"n": {"n": 1}}), json!({"a": {"b": [1, {"c": null}]}}), json!({}), json!([]), json!(""), json!({"x": 1, "y": 2}),
+        json!("\u{feff}"), json!("\u{feff}lead"), json!("mid\u{feff}dle"), json!("\u{200b}\u{2028}\u{2029}"), json!("nul\u{0}byte"), json!("q\"uote \\ back\nline\ttab"), json!(" padded "), json!({"\u{feff}k": "\u{feff}v"}), json!(["\u{feff}"]), json!(9007199254740993i64), json!(-0.5), json!(1e-7), json!(u64::MAX)];
+    let keys = ["a", "n", "k", "scope", "\u{e9}\u{1F511}", "x", "\u{feff}", "k\u{feff}", " k", "k ", "K", "a.b"];   // non-empty keys only (C14 quantifies over non-empty keys; set_claim documents that it ignores an empty key)
     for k in keys { for v in &vals { for rounds in 1..=2 {
         let mut b = GenericBuilder::<V4, Local>::default();
         b.set_claim(CustomClaim::try_from(("other", 1)).unwrap());
@@ -428,6 +485,16 @@ fn c14() {
         let want = json!({"other": 1, k: v, "iss": "me", "jti": "id1", "sub": "sb", "aud": "au"});
         if j != want { return wit(format!("C14 claims set {want} but (after {rounds} build(s)) the parsed token holds {j}")); }
     }}}
+    // two keys that differ only by an invisible code point stay two members
+    { let mut b = GenericBuilder::<V4, Local>::default(); b.set_claim(CustomClaim::try_from(("dup", 1)).unwrap()); b.set_claim(CustomClaim::try_from(("dup\u{feff}", 2)).unwrap());
+      if let Ok(t) = b.try_encrypt(&key) { match GenericParser::<V4, Local>::default().parse(lk(&t), key) { Ok(j) => { if j != json!({"dup": 1, "dup\u{feff}": 2}) { return wit(format!("C14 claims dup=1 and dup<U+FEFF>=2 were set but the parsed token holds {j}")); } } Err(e) => return wit(format!("C14 parse failed for keys differing by U+FEFF: {e}")) } } }
+    // registered claims through their typed constructors, including empty strings
+    for val in ["", "v", " ", "\u{feff}"] { let mut b = GenericBuilder::<V4, Local>::default();
+        b.set_claim(IssuerClaim::from("first")); b.set_claim(IssuerClaim::from(val)); b.set_claim(TokenIdentifierClaim::from(val)); b.set_claim(SubjectClaim::from(val)); b.set_claim(AudienceClaim::from(val));
+        b.set_claim(ExpirationClaim::try_from("2999-01-01T00:00:00Z").unwrap()); b.set_claim(NotBeforeClaim::try_from("2000-01-01T00:00:00.5+01:00").unwrap()); b.set_claim(IssuedAtClaim::try_from("2000-01-01T00:00:00Z").unwrap());
+        if let Ok(t) = b.try_encrypt(&key) { match GenericParser::<V4, Local>::default().parse(lk(&t), key) { Ok(j) => { let want = json!({"iss": val, "jti": val, "sub": val, "aud": val, "exp": "2999-01-01T00:00:00Z", "nbf": "2000-01-01T00:00:00.5+01:00", "iat": "2000-01-01T00:00:00Z"}); if j != want { return wit(format!("C14 registered claims set through their typed constructors {want} but the parsed token holds {j}")); } } Err(e) => return wit(format!("C14 parse failed for registered claims with value {val:?}: {e}")) } } }
+    { let mut b = GenericBuilder::<V4, Local>::default(); b.set_claim(IssuerClaim::default()); b.set_claim(TokenIdentifierClaim::default()); b.set_claim(SubjectClaim::default()); b.set_claim(AudienceClaim::default());
+      if let Ok(t) = b.try_encrypt(&key) { match GenericParser::<V4, Local>::default().parse(lk(&t), key) { Ok(j) => { let o = j.as_object().cloned().unwrap_or_default(); let mut ks: Vec<&str> = o.keys().map(|k| k.as_str()).collect(); ks.sort(); if ks != ["aud", "iss", "jti", "sub"] { return wit(format!("C14 default registered claims do not appear under their registered keys: {j}")); } } Err(e) => return wit(format!("C14 parse failed for default registered claims: {e}")) } } }
     for vv in 1..=3u8 { let m = "{\"name\":\"Zo\u{eb} M\u{fc}ller\",\"\u{e9}\":\"\u{1F511}\"}"; if let Ok(t) = local::enc(vv, 1, 2, m, &None, &None, false) { if local::dec(vv, 1, &t, &None, &None).ok().as_deref() != Some(m) { return wit(format!("C14 v{vv}.local payload with non-ASCII text does not come back unchanged")); } } }
 }
 #[cfg(feature = "main_set")]
@@ -453,6 +520,21 @@ fn c15() {
     case!("iat=2019-01-01T00:00:00+00:00", |p: &mut PasetoParser<V4, Local>| { p.check_claim(IssuedAtClaim::try_from("2019-01-01T00:00:00+00:00").unwrap()); }, true);
     case!("c={a:[1]}", |p: &mut PasetoParser<V4, Local>| { p.check_claim(CustomClaim::try_from(("c", json!({"a": [1]}))).unwrap()); }, true);
     case!("m=null (absent)", |p: &mut PasetoParser<V4, Local>| { p.check_claim(CustomClaim::try_from(("m", serde_json::Value::Null)).unwrap()); }, false);
+    // keys and values are compared verbatim
+    { let t_ws = v4tok("{\"role\":\"x\",\" tenant\":\"t\",\"iat\":\"2019-01-01T00:00:00Z\",\"exp\":\"2999-01-01T00:00:00Z\",\"nbf\":\"2000-01-01T00:00:00Z\"}").0;
+      macro_rules! ws { ($desc:expr, $cfg:expr, $acc:expr) => {{ let mut p = GenericParser::<V4, Local>::default(); $cfg(&mut p); let r = p.parse(lk(&t_ws), key);
+          if r.is_ok() != $acc { return wit(format!("C15 GenericParser expecting {} on payload {{role:x, ' tenant':t, iat:2019-01-01T00:00:00Z, exp:2999-01-01T00:00:00Z, nbf:2000-01-01T00:00:00Z}} -> {:?} but must {}", $desc, r.map(|_| "Ok").map_err(|e| e.to_string()), if $acc { "accept" } else { "reject" })); } }} }
+      ws!("'role '=x (key with trailing space, absent)", |p: &mut GenericParser<V4, Local>| { p.check_claim(CustomClaim::try_from(("role ", "x")).unwrap()); }, false);
+      ws!("role=x", |p: &mut GenericParser<V4, Local>| { p.check_claim(CustomClaim::try_from(("role", "x")).unwrap()); }, true);
+      ws!("' tenant'=t (key with leading space, present)", |p: &mut GenericParser<V4, Local>| { p.check_claim(CustomClaim::try_from((" tenant", "t")).unwrap()); }, true);
+      ws!("tenant=t (absent)", |p: &mut GenericParser<V4, Local>| { p.check_claim(CustomClaim::try_from(("tenant".to_string(), "t")).unwrap()); }, false);
+      ws!("role='x ' (value differs by a space)", |p: &mut GenericParser<V4, Local>| { p.check_claim(CustomClaim::try_from(("role", "x ")).unwrap()); }, false);
+      ws!("iat=2019-01-01T00:00:00Z (same spelling)", |p: &mut GenericParser<V4, Local>| { p.check_claim(IssuedAtClaim::try_from("2019-01-01T00:00:00Z").unwrap()); }, true);
+      ws!("iat=2019-01-01T00:00:00+00:00 (other spelling of the same instant: not JSON-equal)", |p: &mut GenericParser<V4, Local>| { p.check_claim(IssuedAtClaim::try_from("2019-01-01T00:00:00+00:00").unwrap()); }, false);
+      ws!("exp=2999-01-01T00:00:00Z (same spelling)", |p: &mut GenericParser<V4, Local>| { p.check_claim(ExpirationClaim::try_from("2999-01-01T00:00:00Z").unwrap()); }, true);
+      ws!("exp=2999-01-01T00:00:00+00:00", |p: &mut GenericParser<V4, Local>| { p.check_claim(ExpirationClaim::try_from("2999-01-01T00:00:00+00:00".to_string()).unwrap()); }, false);
+      ws!("nbf=2000-01-01T00:00:00Z (same spelling)", |p: &mut GenericParser<V4, Local>| { p.check_claim(NotBeforeClaim::try_from("2000-01-01T00:00:00Z".to_string()).unwrap()); }, true);
+      { let mut p = PasetoParser::<V4, Local>::default(); p.check_claim(IssuedAtClaim::try_from("2019-01-01T00:00:00Z").unwrap()); if let Err(e) = p.parse(lk(&t_ws), key) { return wit(format!("C15 PasetoParser expecting iat=2019-01-01T00:00:00Z rejects a token carrying exactly that value: {e}")); } } }
     // v3.local and order independence with one parser
     { let mut p = GenericParser::<V3, Local>::default(); p.check_claim(AudienceClaim::from("Customers"));
       if p.parse(lk(&t3), key3).is_ok() { return wit("C15 GenericParser<V3,Local> expecting aud=Customers accepts a token with aud=customers".into()); }
@@ -487,6 +569,26 @@ fn c16() {
     { let mut vm: ValidatorMap = std::collections::HashMap::new(); vm.insert("foo".to_string(), Box::new(reject));
       let mut p = GenericParser::<V4, Local>::default(); p.extend_validation_claims(vm); CALLS.store(0, Ordering::SeqCst);
       if p.parse(lk(&t), key).is_ok() { return wit("C16 a rejecting validator registered with extend_validation_claims is not honoured (parse Ok)".into()); } }
+    // a validator registered through a typed claim's default() sees the registered key and the payload's value
+    { use std::sync::Mutex; static SEEN: Mutex<Vec<(String, String)>> = Mutex::new(Vec::new());
+      fn record(k: &str, v: &serde_json::Value) -> Result<(), PasetoClaimError> { SEEN.lock().unwrap().push((k.to_string(), v.to_string())); Ok(()) }
+      let t5 = v4tok("{\"jti\":\"id-7\",\"iss\":\"me\",\"sub\":\"alice\",\"aud\":\"you\",\"iat\":\"2000-01-01T00:00:00Z\"}").0;
+      let mut p = GenericParser::<V4, Local>::default();
+      p.validate_claim(TokenIdentifierClaim::default(), &record); p.validate_claim(IssuerClaim::default(), &record); p.validate_claim(SubjectClaim::default(), &record); p.validate_claim(AudienceClaim::default(), &record); p.validate_claim(IssuedAtClaim::default(), &record);
+      SEEN.lock().unwrap().clear(); let r = p.parse(lk(&t5), key); let mut seen = SEEN.lock().unwrap().clone(); seen.sort();
+      let mut want: Vec<(String, String)> = [("jti", "\"id-7\""), ("iss", "\"me\""), ("sub", "\"alice\""), ("aud", "\"you\""), ("iat", "\"2000-01-01T00:00:00Z\"")].iter().map(|(a, b)| (a.to_string(), b.to_string())).collect(); want.sort();
+      if r.is_err() || seen != want { return wit(format!("C16 validators registered with <typed claim>::default() for jti/iss/sub/aud/iat were invoked with {seen:?} (parse {:?}) but must each run once with the registered key and the payload's value {want:?}", r.map(|_| "Ok").map_err(|e| e.to_string()))); } }
+    // every successful parse runs the validators again (public and local, generic and batteries-included)
+    { let (kp, pk) = R::ed_keypair(9); let k64 = lkv(Key::<64>::from(kp)); let k32 = lkv(Key::<32>::from(pk)); let pkk = lkv(PasetoAsymmetricPublicKey::<V4, Public>::from(k32));
+      let mut pb = PasetoBuilder::<V4, Public>::default(); pb.set_claim(SubjectClaim::from("alice"));
+      if let Ok(tp) = pb.build(&PasetoAsymmetricPrivateKey::<V4, Public>::from(k64)) { let tp = lk(&tp);
+        let mut p = PasetoParser::<V4, Public>::default(); p.validate_claim(SubjectClaim::from("alice"), &accept); CALLS.store(0, Ordering::SeqCst);
+        let a = p.parse(tp, pkk).is_ok(); let b = p.parse(tp, pkk).is_ok(); let c = p.parse(tp, pkk).is_ok();
+        if !(a && b && c) || CALLS.load(Ordering::SeqCst) != 3 { return wit(format!("C16 one PasetoParser<V4,Public> parsing the same token three times: accepted = ({a},{b},{c}), validator ran {} time(s) (must run once per successful parse)", CALLS.load(Ordering::SeqCst))); }
+        let mut g = GenericParser::<V4, Public>::default(); g.validate_claim(SubjectClaim::from("alice"), &accept); CALLS.store(0, Ordering::SeqCst); let _ = g.parse(tp, pkk); let _ = g.parse(tp, pkk);
+        if CALLS.load(Ordering::SeqCst) != 2 { return wit(format!("C16 one GenericParser<V4,Public> parsing the same token twice ran the validator {} time(s)", CALLS.load(Ordering::SeqCst))); } }
+      let mut p = PasetoParser::<V4, Local>::default(); p.validate_claim(SubjectClaim::from("alice"), &accept); let t6 = v4tok("{\"sub\":\"alice\"}").0; CALLS.store(0, Ordering::SeqCst); let _ = p.parse(lk(&t6), key); let _ = p.parse(lk(&t6), key);
+      if CALLS.load(Ordering::SeqCst) != 2 { return wit(format!("C16 one PasetoParser<V4,Local> parsing the same token twice ran the validator {} time(s)", CALLS.load(Ordering::SeqCst))); } }
     // never invoked on unauthenticated tokens
     { let mut p = GenericParser::<V4, Local>::default(); p.validate_claim(SubjectClaim::from("x"), &accept); CALLS.store(0, Ordering::SeqCst);
       let mut bad = t.clone(); bad.pop(); bad.push('A'); let _ = p.parse(lk(&bad), key); let wrong = lkv(PasetoSymmetricKey::<V4, Local>::from(key32(9))); let _ = p.parse(lk(&t), wrong);
@@ -518,6 +620,32 @@ fn c17() {
     }}
 }
 #[cfg(feature = "main_set")]
+fn c17_time_claims() {
+    let key = lkv(PasetoSymmetricKey::<V4, Local>::from(key32(1)));
+    // ops: 0 set a ; 1 exp ; 2 nbf ; 3 iat ; 4 ack ; 5 iss ; 6 build
+    let mut seqs: Vec<Vec<u8>> = vec![vec![]];
+    for _ in 0..4 { let mut nx = vec![]; for s in &seqs { for op in 0..7u8 { let mut t = s.clone(); t.push(op); nx.push(t); } } seqs.extend(nx); seqs.sort(); seqs.dedup(); }
+    for s in seqs.iter().filter(|s| s.len() <= 4) {
+        let mut ops = s.clone(); ops.push(6);
+        let mut b = PasetoBuilder::<V4, Local>::default(); let mut seen = std::collections::HashSet::new(); let mut dup = false; let mut acked = false; let mut latitude = false;
+        for (ix, op) in ops.iter().enumerate() { match op {
+            0 => { b.set_claim(CustomClaim::try_from(("a", ix as u64)).unwrap()); if !seen.insert(0) { dup = true; } }
+            1 => { b.set_claim(ExpirationClaim::try_from("2999-01-01T00:00:00Z").unwrap()); if !seen.insert(1) { dup = true; } else if acked { latitude = true; } }
+            2 => { b.set_claim(NotBeforeClaim::try_from("2000-01-01T00:00:00Z").unwrap()); if !seen.insert(2) { dup = true; } }
+            3 => { b.set_claim(IssuedAtClaim::try_from("2000-01-01T00:00:00Z").unwrap()); if !seen.insert(3) { dup = true; } }
+            4 => { b.set_no_expiration_danger_acknowledged(); acked = true; }
+            5 => { b.set_claim(IssuerClaim::from("i")); if !seen.insert(5) { dup = true; } }
+            _ => { let r = b.build(&key);
+                   if dup && r.is_ok() { return wit(format!("C17 PasetoBuilder<V4,Local> ops {ops:?} (0=set a,1=exp,2=nbf,3=iat,4=acknowledge no expiration,5=iss,6=build): a key was supplied twice but build at step {ix} returned a token")); }
+                   if !dup && !latitude { match r { Err(e) => return wit(format!("C17 PasetoBuilder<V4,Local> ops {ops:?} (0=set a,1=exp,2=nbf,3=iat,4=ack,5=iss,6=build): no repeated key but build failed: {e}")),
+                       Ok(t) => { if let Ok(j) = GenericParser::<V4, Local>::default().parse(lk(&t), key) {
+                           if seen.contains(&2) && j["nbf"] != "2000-01-01T00:00:00Z" { return wit(format!("C17 ops {ops:?}: caller-supplied nbf did not replace the default: {j}")); }
+                           if seen.contains(&3) && j["iat"] != "2000-01-01T00:00:00Z" { return wit(format!("C17 ops {ops:?}: caller-supplied iat did not replace the default: {j}")); }
+                           if seen.contains(&1) && !acked && j["exp"] != "2999-01-01T00:00:00Z" { return wit(format!("C17 ops {ops:?}: caller-supplied exp did not replace the default: {j}")); } } } } } }
+        } }
+    }
+}
+#[cfg(feature = "main_set")]
 fn c18() {
     let reserved = ["iss", "sub", "aud", "exp", "nbf", "iat", "jti"];
     let mut keys: Vec<String> = vec!["".into(), " ".into(), "a".into()];
@@ -527,7 +655,8 @@ fn c18() {
     for k in &keys { let must_fail = reserved.contains(&k.as_str());
         let r1 = CustomClaim::try_from(k.as_str()).is_err(); let r2 = CustomClaim::try_from((k.as_str(), 1)).is_err(); let r3 = CustomClaim::try_from((k.clone(), "v")).is_err();
         if r1 != must_fail || r2 != must_fail || r3 != must_fail { return wit(format!("C18 CustomClaim with key {k:?}: rejected by (&str, (&str,T), (String,T)) constructors = ({r1},{r2},{r3}) but reserved = {must_fail}")); } }
-    let good = ["2019-01-01T00:00:00Z", "2019-01-01T00:00:00+00:00", "2039-12-31T23:59:59.123456789Z", "2019-01-01T00:00:00.5-23:59", "1971-06-01T12:00:00+05:30"];
+    let good = ["2019-01-01T00:00:00Z", "2019-01-01T00:00:00+00:00", "2039-12-31T23:59:59.123456789Z", "2019-01-01T00:00:00.5-23:59", "1971-06-01T12:00:00+05:30",
+                "2019-01-01T00:00:00.1234567+01:00", "2019-01-01T00:00:00.123456789+01:00", "2019-01-01T00:00:00.123456789-11:30", "9999-12-31T23:59:59Z", "0001-01-01T00:00:00Z", "2020-02-29T23:59:59Z", "2019-01-01T00:00:00.000000000Z"];
     let bad = ["", "hello", " 2019-01-01T00:00:00Z", "x2019-01-01T00:00:00Z", "T00:00:00Z", "12345", "tomorrow"];
     for g in good {
         macro_rules! chk { ($T:ident) => {{ match $T::try_from(g) { Ok(c) => { use rusty_paseto::generic::PasetoClaim; let j = serde_json::to_value(&c).unwrap(); if j[c.get_key()] != g { return wit(format!("C18 {}::try_from({g:?}) does not keep the text verbatim: {j}", stringify!($T))); } } Err(e) => return wit(format!("C18 {}::try_from({g:?}) rejects an RFC 3339 date-time: {e}", stringify!($T))) }
@@ -602,7 +731,7 @@ fn main() {
     #[cfg(feature = "main_set")]
     match pid.as_str() {
         "C01" => c01(), "C02" => c02(), "C03" => c03(), "C04" => c04(), "C05" => c05(), "C06" => c06(), "C07" => c07(), "C08" => c08(), "C09" => c09(), "C10" => c10(),
-        "C11" => c11_c12("C11"), "C12" => c11_c12("C12"), "C13" => c13(), "C14" => c14(), "C15" => c15(), "C16" => c16(), "C17" => c17(), "C18" => c18(),
+        "C11" => c11_c12("C11"), "C12" => c11_c12("C12"), "C13" => c13(), "C14" => c14(), "C15" => c15(), "C16" => c16(), "C17" => { c17(); c17_time_claims() }, "C18" => c18(),
         _ => {}
     }
     #[cfg(feature = "v3pub_set")]
